@@ -176,10 +176,26 @@ ClosestOK(S, o, res) ==
   /\ Len(o.ord) = Cardinality(A)
   /\ res = Take(o.ord, o.k)
 
-PropFrame(K, S, o, T) ==
+\* Ledger of what the *caller* reported: the peers it said are connected (connection
+\* established through either endpoint kind, or added / inserted as Connected) and has not
+\* since reported otherwise (disconnect, or added / inserted with another connection type).
+\* add_known_peer without addresses is documented to be ignored; `insert` is only called on
+\* a Vacant entry.  Only stored peers matter: whatever stores a peer also states its
+\* connection, so the ledger is kept restricted to the stored peers.
+LedUpd(led, o, ret, T) ==
+  LET said(c) == IF c = "C" THEN led \cup {o.p} ELSE led \ {o.p}
+      l2 == CASE o.op = "est"  -> led \cup {o.p}
+              [] o.op = "disc" -> led \ {o.p}
+              [] o.op = "add" /\ o.ha = 1 -> said(o.conn)
+              [] o.op = "insert" /\ ret = "vacant" -> said(o.conn)
+              [] OTHER -> led
+  IN l2 \cap KnownIds(T)
+
+PropFrame(K, S, led, o, T) ==
   LET kS == KnownIds(S)
       kT == KnownIds(T)
-      connected == {e.id : e \in {x \in Stored(S) : x.u = 1 /\ x.conn = "C"}}
+      \* connected = reported connected by the caller, or held as Connected by the table
+      connected == {e.id : e \in {x \in Stored(S) : x.u = 1 /\ (x.conn = "C" \/ x.id \in led)}}
       own == IF HasP(o) THEN {o.p} ELSE {}
   IN /\ StateOK(K, T)
      \* "a connected peer is never displaced to make room"
@@ -187,8 +203,8 @@ PropFrame(K, S, o, T) ==
      \* nothing is stored that nobody supplied
      /\ kT \subseteq kS \cup own
 
-PropStep(K, S, o, ret, T) ==
-  /\ PropFrame(K, S, o, T)
+PropStep(K, S, led, o, ret, T) ==
+  /\ PropFrame(K, S, led, o, T)
   /\ o.op = "closest" => ClosestOK(S, o, ret)
 
 \* Shape of the recorded defect D11 (ClosestBucketsIter yields bucket 0 twice): the peer
